@@ -100,15 +100,15 @@ Example C18_example_wf : wf_bin_bytes ex_bin.
 Proof. apply wf_bin_bytesb_sound. vm_compute. reflexivity. Qed.
 (* on this file the model's own byte-level functions round-trip (no premise needed for a concrete file) *)
 Example C18_example_bytes :
-  exists f, serialize Checked ex_bin = Ok f /\ parse f = Ok ex_bin /\ length f = 122%nat.
-Proof. vm_compute. eexists. repeat split. Qed.
+  exists f, serialize Checked ex_bin = Ok f /\ parse f = Ok ex_bin /\ length f = 94%nat.
+Proof. eexists. split; [vm_compute; reflexivity|]. split; vm_compute; reflexivity. Qed.
 (* the colour 0x04030201 = [1,2,3,4] is stored as 3,2,1,4 *)
 Example C18_example_colour :
   exists a, build {| ab_flags := 0; ab_specs := [ex_spec] |} = Ok a /\ read_bytes a 24 4 = Ok [3; 2; 1; 4].
-Proof. vm_compute. eexists. split; reflexivity. Qed.
+Proof. intros; eexists. split; [vm_compute; reflexivity | vm_compute; reflexivity]. Qed.
 (* the normal form is needed: a value in an absent field is not stored *)
 Example C18_normal_form_needed :
   let sp := {| sp_name := None; sp_strs := repeat None N_STRS; sp_typed := upd unk3 (fun _ => (false, 5)) (repeat (false, 0) N_TYPED) |} in
   exists a, build {| ab_flags := 0; ab_specs := [sp] |} = Ok a /\
             from_archive a = Ok {| ab_flags := 0; ab_specs := [spec_default] |}.
-Proof. vm_compute. eexists. split; reflexivity. Qed.
+Proof. intros; eexists. split; [vm_compute; reflexivity | vm_compute; reflexivity]. Qed.
